@@ -80,7 +80,7 @@ var punctStrings = []string{"a;b", ";", "a;", ";;", "1,2;3,4", "/point/ns/1;x", 
 var unicodeStrings = []string{"é", "日本", "naïve café", " ", "ß;ü", "Ω,1"}
 var yamlStrings = []string{"true", "yes", "no", "on", "Null", "NULL", "2001-01-01", "1:30", "<<", "=", ".inf", ".nan", "0b1", "1e+3", "nul", "~~"}
 
-// the documented finding class (yaml.v2 cannot decode these as an Unmarshaler's scalar): corpus only
+// yaml.v2 never hands these scalars to an Unmarshaler (fixes/C18-export-null-string.patch writes them explicitly)
 var nullStrings = []string{"null", "~"}
 
 var fuzzAlphabet = []string{"0", "1", "5", "9", ",", ",", ".", ";", "/", ":", "-", "+", "e", "E", " ", "n", "a", "inf", "nan", "point", "ns", "path"}
@@ -178,7 +178,7 @@ func randString(r *hx.Rand, c *hx.Ctx) string {
 			s = r.Pick(unicodeStrings)
 			c.Note("str:unicode")
 		case x < 16:
-			s = r.Pick(yamlStrings)
+			s = r.Pick(append(yamlStrings, nullStrings...))
 			c.Note("str:yaml")
 		default:
 			n := 1 + r.Intn(7)
@@ -186,9 +186,6 @@ func randString(r *hx.Rand, c *hx.Ctx) string {
 				s += r.Pick(fuzzAlphabet)
 			}
 			c.Note("str:fuzz")
-		}
-		if s == "null" || s == "~" {
-			continue
 		}
 		if modelled(s) {
 			return s
